@@ -120,3 +120,11 @@ def trim(step):
 
 def job_for(forms, jid="p", fuel=200000, interp=None):
     return {"id": jid, "interps": [interp or {"stdlib": True}], "steps": [{"src": show(f)} for f in forms], "fuel": fuel}
+
+
+def age(job, rng, n):
+    """evaluate n failing forms (gen_text.aging) on the job's interpreter before its own steps; core.run_driver drops their records again"""
+    from . import gen_text
+    job["steps"] = [{"src": t} for t in gen_text.aging(rng, n)] + job["steps"]
+    job["_aged"] = job.get("_aged", 0) + n
+    return job
